@@ -1089,6 +1089,289 @@ def run_flavours(flavours, tier, seed, model_ok, rule, assumptions, race_env=Non
     return res
 
 
+# ---------------------------------------------------------------------------------------- key equivalence
+# A key of ygm::container::map / set is what Compare (operator==) says it is, not its object representation: the container
+# must behave like ONE sequential std::map / std::set with that Compare.  Key types whose bytes are not 1:1 with their
+# value (harness/mapset.cpp, `keyeq`):  d double (+0.0 / -0.0),  v struct {id; tag} compared / hashed by id only,
+# p struct {uint8 a; uint64 b} with garbage in its padding bytes.  Every logical key is operated on from several ranks
+# through DIFFERENT representations; within a phase all operations on one logical key commute (or there is only one), so
+# the sequential result is known in closed form: size() = number of distinct keys, count <= 1, value per key, erase
+# removes the key everywhere, all_gather returns the one value.
+
+KEQ_LAYOUTS = {"d": [(1, 3), (1, 5), (2, 3), (1, 7)],      # +0.0 / -0.0 can only part on rank counts that are no power of two
+               "v": [(1, 2), (1, 3), (2, 2), (1, 5), (2, 3), (1, 7), (2, 4)],
+               "p": [(1, 2), (1, 3), (2, 2), (1, 5), (2, 3), (1, 7), (2, 4)]}
+KEQ_NAMES = {"d": "double", "v": "struct{id;tag} compared by id", "p": "struct{uint8;uint64} with padding"}
+
+
+def keq_canon(kind, tok):
+    """logical key of a key token (scenario token or harness output), as a hashable"""
+    t = tok[1:] if tok.startswith("=") else tok
+    if kind == "d":
+        return float(t) + 0.0            # -0.0 + 0.0 == +0.0
+    f = t.split(":")
+    return int(f[0]) if kind == "v" else (int(f[0]), int(f[1]))
+
+
+def keq_logical(kind, rnd):
+    """the logical keys of a scenario: list of (canonical key, [representations])"""
+    if kind == "d":
+        others = ["1.5", "-1.5", "2.5", "1e-300", "3", "-7.25", "1e300", "4.9e-324"]
+        rnd.shuffle(others)
+        return [(0.0, ["0.0", "-0.0"])] + [(float(x) + 0.0, [x]) for x in others[:rnd.randrange(2, 5)]]
+    if kind == "v":
+        ids = rnd.sample([0, 1, 2, 3, 5, 8, 1000, 65536, (1 << 32) - 1], rnd.randrange(4, 8))
+        return [(i, [f"{i}:{t}" for t in rnd.sample([0, 1, 2, 7, 255, 12345, 1 << 31, (1 << 32) - 1], 4)]) for i in ids]
+    combos = rnd.sample([(a, b) for a in (0, 1, 7, 255) for b in (0, 1, 255, (1 << 40) + 3, (1 << 64) - 1)], rnd.randrange(4, 8))
+    return [((a, b), [f"{a}:{b}:{g}" for g in rnd.sample([0, 1, 17, 90, 171, 255], 4)]) for (a, b) in combos]
+
+
+def keq_gen(kind, cont, R, rnd, nphases):
+    """-> lines, phases [dict(expected, obs=[(line, directive tokens)], multi=set of logical keys hit through >= 2 representations)]"""
+    logical = keq_logical(kind, rnd)
+    model, lines, phases = {}, [], []
+    seen_reps = {}
+
+    def pick_reps(reps, n):
+        out = [rnd.choice(reps) for _ in range(n)]
+        if n >= 2 and len(reps) >= 2 and len(set(out)) < 2:
+            out[0], out[1] = rnd.sample(reps, 2)
+        return out
+
+    for ph in range(nphases):
+        ops = []
+        for (lk, reps) in logical:
+            if cont == "set":
+                cls = rnd.choice(["ins", "ins", "ins", "era", "none"] if ph else ["ins", "ins", "ins", "none"])
+            else:
+                cls = rnd.choice(["plus", "plus", "plus", "ins", "iim", "vie", "era", "none"] if ph else ["plus", "plus", "plus", "ins", "iim", "none"])
+            if cls == "none" and len(reps) >= 2 and rnd.random() < 0.7:
+                cls = "ins" if cont == "set" else "plus"
+            if cls == "none":
+                continue
+            n = 1 if (cls == "ins" and cont == "map") else rnd.randrange(2, R + 3) if cls != "era" else rnd.randrange(1, 4)
+            rs = pick_reps(reps, n)
+            if n == 1 and lk in model and len(reps) >= 2:
+                # overwrite through a representation other than the one(s) that created the entry
+                fresh = [x for x in reps if x not in seen_reps.get(lk, set())]
+                rs = [rnd.choice(fresh or reps)]
+            ranks = [rnd.randrange(R) for _ in range(n)]
+            if n >= 2 and len(set(ranks)) < 2 and R >= 2:
+                ranks[1] = (ranks[0] + 1 + rnd.randrange(R - 1)) % R
+            seen_reps.setdefault(lk, set()).update(rs)
+            if cont == "set":
+                for r, rep in zip(ranks, rs):
+                    ops.append(f"o {r} {cls} ={rep}")
+                if cls == "ins":
+                    model[lk] = None
+                else:
+                    model.pop(lk, None)
+            elif cls == "plus":
+                tot = 0
+                for r, rep in zip(ranks, rs):
+                    o = rnd.choice(["vis", "red", "iev"])
+                    v = 1 if o == "vis" else rnd.randrange(1, 50)
+                    tot += v
+                    ops.append(f"o {r} {o} ={rep}" + ("" if o == "vis" else f" {v}"))
+                model[lk] = model.get(lk, 0) + tot
+            elif cls == "ins":
+                v = rnd.randrange(100, 1000)
+                ops.append(f"o {ranks[0]} ins ={rs[0]} {v}")
+                model[lk] = v
+            elif cls == "iim":
+                v = rnd.randrange(1000, 2000)
+                for r, rep in zip(ranks, rs):
+                    ops.append(f"o {r} iim ={rep} {v}")
+                model.setdefault(lk, v)
+            elif cls == "vie":
+                for r, rep in zip(ranks, rs):
+                    ops.append(f"o {r} vie ={rep}")
+                if lk in model:
+                    model[lk] += n
+            else:
+                for r, rep in zip(ranks, rs):
+                    ops.append(f"o {r} era ={rep}")
+                model.pop(lk, None)
+        rnd.shuffle(ops)
+        lines += ops
+        lines.append("B")
+        obs = []
+
+        def add(d):
+            lines.append(" ".join(d))
+            obs.append((len(lines) - 1, d))
+            if d[0] in ("count", "gather"):          # a query through another representation than the one that stored the key
+                for k in d[1 if d[0] == "count" else 2:]:
+                    seen_reps.setdefault(keq_canon(kind, k), set()).add(k[1:])
+        add(["size"])
+        for (lk, reps) in logical:
+            add(["own"] + ["=" + x for x in reps])
+        add(["forall"])
+        for (lk, reps) in rnd.sample(logical, min(len(logical), 4)):
+            for rep in (reps if len(reps) == 2 else rnd.sample(reps, 1)):
+                add(["count", "=" + rep])
+        if cont == "map":
+            ks = [rnd.choice(reps) for (lk, reps) in rnd.sample(logical, min(len(logical), 3))]
+            add(["gather", str(rnd.choice([-1, rnd.randrange(R)]))] + ["=" + k for k in ks])
+        lines.append("B")
+        phases.append({"expected": dict(model), "obs": obs, "multi": {lk for lk, rs_ in seen_reps.items() if len(rs_) >= 2}})
+    return lines, phases
+
+
+def keq_jobs(tier, seed):
+    rnd = random.Random(seed * 611953 + 17)
+    jobs, i = [], 0
+    for rep in range(2 if tier == "quick" else 16):
+        for kind in "dvp":
+            for cont in ("map", "set"):
+                for (nodes, ppn) in KEQ_LAYOUTS[kind]:
+                    i += 1
+                    jobs.append({"harness": "keyeq", "kind": kind, "container": cont, "nodes": nodes, "ppn": ppn, "routing": ROUTINGS[(i + rep) % 3],
+                                 "buffer": BUFFERS[(i // 3 + rep) % 3], "policy": POLICIES[(i + 2 * rep + seed) % 5], "sim_seed": rnd.randrange(1, 1 << 30),
+                                 "gen_seed": rnd.randrange(1 << 30), "phases": 4 if tier == "quick" else 6})
+    return jobs
+
+
+def keq_run_job(binary, j):
+    R = j["nodes"] * j["ppn"]
+    lines, phases = keq_gen(j["kind"], j["container"], R, random.Random(j["gen_seed"]), j["phases"])
+    d = tempfile.mkdtemp(prefix="ygm-c11-")
+    try:
+        p = os.path.join(d, "scenario.txt")
+        with open(p, "w") as f:
+            f.write("\n".join(lines) + "\n")
+        env = {"YGM_COMM_ROUTING": j["routing"]}
+        if j["buffer"] is not None:
+            env["YGM_COMM_BUFFER_SIZE_KB"] = j["buffer"]
+        sr = C.run_sim(binary, ["keyeq", j["kind"] + j["container"][0], p], nodes=j["nodes"], ppn=j["ppn"], env=env, sim_seed=j["sim_seed"],
+                       policy=j["policy"], want_log=False, timeout=j.get("timeout", 60), max_steps=400000, livelock=100000)
+    finally:
+        shutil.rmtree(d, ignore_errors=True)
+    return lines, phases, sr
+
+
+def keq_judge(res, j, lines, phases, sr):
+    kind, cont, R = j["kind"], j["container"], j["nodes"] * j["ppn"]
+    res.evaluations += 1
+    res.count(f"keyeq {cont}<{KEQ_NAMES[kind]}> ranks={R}")
+    if sr.verdict != "ok":
+        if comm_layer_abort(sr):
+            res.count("skipped: messaging-layer abort (C03)")
+            return
+        res.oracle_failures.append({"what": f"key-equivalence scenario ({cont}<{KEQ_NAMES[kind]}>, {R} ranks) did not complete: {sr.verdict} {(sr.stderr or '')[-200:]}",
+                                    "signature": f"{cont}-keyeq-run-failed {sr.verdict.split(':')[0]}", "case": dict(j)})
+        return
+    ans = []
+    for r in range(R):
+        a = {}
+        for l in sr.outs.get(r, []):
+            w = l.split(" ", 2)
+            if w[0] == "A" and len(w) == 3:
+                a[int(w[1])] = w[2]
+            elif l.startswith("PH "):
+                pass
+            elif l == "padlost":
+                res.corr_failures.append({"relation": "keyeq harness builds keys with garbage in the padding bytes", "what": "padding bytes were reset", "case": dict(j)})
+                return
+            else:
+                res.corr_failures.append({"relation": "harness output well-formed", "what": f"rank {r}: {l[:120]}", "case": dict(j)})
+                return
+        ans.append(a)
+
+    def pairs(s):
+        """'F =k v; =k v;' -> [(canonical key, value or None, raw key token)]"""
+        out = []
+        for it in s[1:].split(";"):
+            w = it.split()
+            if w:
+                out.append((keq_canon(kind, w[0]), int(w[1]) if len(w) > 1 else None, w[0]))
+        return out
+
+    def fail(what, lk, ph, **kw):
+        sig = f"{cont}-key-equivalence" if (lk is None or lk in phases[ph]["multi"]) else f"{cont}-keyeq-contents"
+        res.oracle_failures.append({"what": f"{cont}<{KEQ_NAMES[kind]}> on {R} ranks, phase {ph}: {what}", "signature": sig,
+                                    "case": dict(j, phase=ph, key=repr(lk), scenario=lines[:60], **kw)})
+
+    nfail = len(res.oracle_failures)
+    for ph, P in enumerate(phases):
+        exp = P["expected"]
+        owners = {}
+        for (li, d) in P["obs"]:
+            got = [a.get(li) for a in ans]
+            if any(g is None for g in got):
+                res.corr_failures.append({"relation": "harness completed the scenario", "what": f"no answer for directive {li} {d}", "case": dict(j, phase=ph)})
+                return
+            if d[0] == "own":
+                lk = keq_canon(kind, d[1])
+                owners[lk] = sorted(set(x for g in got for x in g.split()[1:]))
+            elif d[0] == "size":
+                if any(g != f"S {len(exp)}" for g in got):
+                    fail(f"size() = {sorted(set(got))}, a sequential std::{cont} with this Compare holds {len(exp)} keys", None, ph, real=got[:3], expected=len(exp))
+            elif d[0] == "count":
+                lk = keq_canon(kind, d[1])
+                want = 1 if lk in exp else 0
+                if any(g != f"C {want}" for g in got):
+                    fail(f"count({d[1]}) = {sorted(set(got))}, expected {want} (owners of the representations of this key: {owners.get(lk)})", lk, ph,
+                         directive=d, real=got[:3], expected=want, owners=owners.get(lk))
+            elif d[0] == "forall":
+                stored = {}
+                for r, g in enumerate(got):
+                    for (lk, v, raw) in pairs(g):
+                        stored.setdefault(lk, []).append((r, v, raw))
+                for lk, where in stored.items():
+                    if len(where) > 1:
+                        fail(f"ONE key (under Compare) is stored {len(where)} times: {[(f'rank {r}', raw, v) for r, v, raw in where][:4]} "
+                             f"(owners of its representations: {owners.get(lk)})", lk, ph, real=[list(x) for x in where][:6], expected=exp.get(lk), owners=owners.get(lk))
+                for lk in set(stored) | set(exp):
+                    real = [v for (_, v, _) in stored.get(lk, [])]
+                    want = [exp[lk]] if lk in exp else []
+                    if len(real) <= 1 and real != want:
+                        fail(f"key {lk!r}: stored value {real} but the sequential application of the operations gives {want} "
+                             f"(owners of its representations: {owners.get(lk)})", lk, ph, real=real, expected=want, owners=owners.get(lk))
+            elif d[0] == "gather":
+                who = int(d[1])
+                want = sorted((lk, exp[lk]) for lk in set(keq_canon(kind, k) for k in d[2:]) if lk in exp)
+                for r, g in enumerate(got):
+                    real = sorted((lk, v) for (lk, v, _) in pairs(g))
+                    w_r = want if (who < 0 or who == r) else []
+                    if real != w_r:
+                        bad = next((lk for lk in [x[0] for x in real + w_r] if [x for x in real if x[0] == lk] != [x for x in w_r if x[0] == lk]), None)
+                        fail(f"all_gather({d[2:]}) on rank {r} returned {real}, expected {w_r}", bad, ph, directive=d, real=[list(x) for x in real], rank=r)
+                        break
+        if len(res.oracle_failures) > nfail:
+            del res.oracle_failures[nfail + 3:]          # a few failures of the first failing phase are enough
+            return
+    multi = phases[-1]["multi"] if phases else set()
+    if multi:
+        res.distinct.add(("keyeq", kind, cont, j["nodes"], j["ppn"], j["routing"], j["buffer"], j["policy"], j["gen_seed"]))
+    res.count("keyeq: logical keys operated on through >= 2 representations", len(multi))
+    res.traces_validated += 1
+
+
+def keq_run(res, tier, seed, containers=("map", "set")):
+    binary, err = C.build_harness("mapset")
+    if binary is None:
+        return              # already reported by run_flavours
+    jobs = [j for j in keq_jobs(tier, seed) if j["container"] in containers]
+    for j, (lines, phases, sr) in C.pmap(lambda j: (j, keq_run_job(binary, j)), jobs):
+        keq_judge(res, j, lines, phases, sr)
+
+
+def keq_replay(data):
+    j = dict(data.get("case") or {})
+    binary, err = C.build_harness("mapset")
+    if binary is None:
+        print(err[-500:])
+        return False
+    res = C.Result()
+    keq_judge(res, j, *keq_run_job(binary, j))
+    for f in res.oracle_failures[:5]:
+        print("ORACLE", f["signature"], f["what"][:400])
+    for f in res.corr_failures[:5]:
+        print("CORR", f["relation"], f["what"])
+    return not (res.oracle_failures or res.corr_failures)
+
+
 FLAVOURS = ([MapFlavour(w, k, v) for v in ("d", "g") for w in ("map", "multimap") for k in ("ss", "is", "si")]
             + [MapFlavour(w, k, "p") for w in ("map", "multimap") for k in ("ss", "is")]
             + [MapFlavour(w, k, "d") for w in ("map", "multimap") for k in ("uu", "us")])
@@ -1103,6 +1386,7 @@ def run(tier, seed, model_ok=True):
     res = run_flavours(FLAVOURS, tier, seed, model_ok, RULE, ASSUME, race_env="C11_POST_CLEAR_NOBARRIER")
     from lib import swaprace
     swaprace.run(res, "map", tier, seed)     # swap() / clear() followed at once by operations, no barrier
+    keq_run(res, tier, seed)                 # keys equal under Compare but with different object bytes are ONE key
     return res
 
 
@@ -1111,6 +1395,8 @@ def replay_with(flavour_of, data):
     if case.get("harness") == "swaprace":
         from lib import swaprace
         return swaprace.replay(data)
+    if case.get("harness") == "keyeq":
+        return keq_replay(data)
     if "gen_seed" not in case:
         print("replay: nothing executable recorded:", data.get("no_longer_checks"))
         return False
